@@ -536,7 +536,15 @@ impl Sim {
             }
             drop(g);
         } else {
-            drop(g);
+            let hold = !unwinding && g.round.as_ref().is_some_and(|r| r.spec.aftermath);
+            if hold {
+                // A slow callback: stay inside it until the `execute_on` call of this round is over
+                // (bounded, so a pool that waits for its workers is not deadlocked by the harness).
+                let (g2, _) = self.wait_until(g, Duration::from_secs(3), |st| st.outcome.is_some().then_some(()));
+                drop(g2);
+            } else {
+                drop(g);
+            }
             if !unwinding {
                 // A preemption point inside the callback for free-running rounds.
                 std::thread::yield_now();
